@@ -422,4 +422,223 @@ theorem swapElements_nil (cfg : Cfg) (c o : Nat) (hco : c ≠ o) (w : World α) 
       · simp [upd_other _ _ _ _ hxc, upd_other _ _ _ _ hxo]
   exact (world_hdr_ext this).trans rfl
 
+/-- ELEMENT-WISE SWAP in a system: both containers inline, same inline capacity, `size c ≤ size o` -/
+theorem SysAll.swapElements {cfg : Cfg} {w : World α} {U A : List Nat} {c o : Nat} (hs : SysAll cfg w U A)
+    (hc : c ∈ A) (ho : o ∈ A) (hco : c ≠ o) (hN : (w.hdr c).N = (w.hdr o).N)
+    (hcin : (w.hdr c).data = (w.hdr c).inl) (hoin : (w.hdr o).data = (w.hdr o).inl)
+    (hle : (w.hdr c).size ≤ (w.hdr o).size) :
+    ((swapElements cfg c o >>= fun _ => maybeSwapAlloc cfg c o) w).sat
+      (fun _ w' => SysAll cfg w' U A ∧ (∀ xs, Holds w o xs → Holds w' c xs) ∧ (∀ xs, Holds w c xs → Holds w' o xs) ∧
+          (∀ d ∈ A, d ≠ c → d ≠ o → ∀ xs, Holds w d xs → Holds w' d xs) ∧ w'.live = w.live ∧
+          (w'.hdr c).data = (w.hdr c).data ∧ (w'.hdr o).data = (w.hdr o).data)
+      (fun e w' => e = .elem ∧ SysAll cfg w' U A ∧ (∃ ys, Holds w' c ys) ∧ (∃ ys, Holds w' o ys) ∧
+          (∀ d ∈ A, d ≠ c → d ≠ o → ∀ xs, Holds w d xs → Holds w' d xs) ∧ w'.live = w.live) := by
+  have hoc : o ≠ c := fun h => hco h.symm
+  have hvc := hs.ok.vec c hc
+  have hvo := hs.ok.vec o ho
+  have hl := hs.ok.led
+  by_cases hz : (w.hdr o).size = 0
+  · -- nothing to exchange
+    have hzc : (w.hdr c).size = 0 := by omega
+    rw [bind_run, swapElements_nil cfg c o hco w hzc hz]
+    simp only []
+    obtain ⟨w', hrun, hs', hm, hlv, hh⟩ := hs.maybeSwapAlloc_inline hc ho hco hcin hoin (cfg := cfg)
+    rw [hrun]
+    refine ⟨hs', ?_, ?_, ?_, hlv, (hh c).1, (hh o).1⟩
+    · intro xs hx
+      have : xs = [] := List.eq_nil_of_length_eq_zero (by rw [hx.1, hz])
+      rw [this]; exact ⟨by rw [(hh c).2.1, hzc]; rfl, fun i hi => by simp at hi⟩
+    · intro xs hx
+      have : xs = [] := List.eq_nil_of_length_eq_zero (by rw [hx.1, hzc])
+      rw [this]; exact ⟨by rw [(hh o).2.1, hz]; rfl, fun i hi => by simp at hi⟩
+    · intro d _ _ _ xs hx
+      exact hx.of_same (by rw [hm]) (hh d).1 (hh d).2.1
+  · -- the buffers are different in-object buffers
+    have hNpos : 0 < (w.hdr o).N := by
+      have h1 := hvo.size_le
+      have h2 : (w.hdr o).cap = (w.hdr o).N := (hvo.inl_iff).mpr hoin
+      omega
+    have hii : (w.hdr c).inl ≠ (w.hdr o).inl := by
+      rcases (hs.ok.sep c hc o ho hco).inl with h | ⟨_, h⟩
+      · exact h
+      · omega
+    have hd : (w.hdr o).data ≠ (w.hdr c).data := by rw [hcin, hoin]; exact fun h => hii h.symm
+    have hi : (w.hdr o).data ≠ (w.hdr c).inl := by rw [hoin]; exact fun h => hii h.symm
+    have hfit : (w.hdr o).size ≤ (w.hdr c).cap := by
+      have h1 := hvo.size_le
+      have h2 : (w.hdr o).cap = (w.hdr o).N := (hvo.inl_iff).mpr hoin
+      have h3 : (w.hdr c).cap = (w.hdr c).N := (hvc.inl_iff).mpr hcin
+      omega
+    have hsat := swapElements_sat cfg c o w hvc hl hvo hco hle hfit hd hi
+    refine sat_bind hsat (fun _ w1 ⟨hb1, hb2, hhc1, hho1, hvalc, hvalo, hlv1, hn1⟩ => ?_) (fun e w1 ⟨he, hb1, hb2, hh1, hlv1, hn1⟩ => ?_)
+    · have hs_h := hs.step ho hb1
+      have hs1 := hs_h.step hc hb2
+      have hother1 : ∀ d ∈ A, d ≠ c → d ≠ o → ∀ xs, Holds w d xs → Holds w1 d xs := by
+        intro d hd' hdc hdo xs hx
+        exact hs_h.ok.holds_other hc hb2 hd' hdc (hs.ok.holds_other ho hb1 hd' hdo hx)
+      obtain ⟨w', hrun, hs', hm, hlv, hh⟩ := hs1.maybeSwapAlloc_inline hc ho hco (by rw [hhc1]; exact hcin) (by rw [hho1]; exact hoin) (cfg := cfg)
+      rw [hrun]
+      refine ⟨hs', ?_, ?_, ?_, by rw [hlv, hlv1], by rw [(hh c).1, hhc1], by rw [(hh o).1, hho1]⟩
+      · intro xs hx
+        refine ⟨by rw [(hh c).2.1, hhc1]; exact hx.1, fun i hi' => ?_⟩
+        rw [(hh c).1, hhc1, hm]; simp only []
+        rw [hvalc i (by rw [← hx.1]; exact hi')]; exact hx.2 i hi'
+      · intro xs hx
+        refine ⟨by rw [(hh o).2.1, hho1]; exact hx.1, fun i hi' => ?_⟩
+        rw [(hh o).1, hho1, hm]; simp only []
+        rw [hvalo i (by rw [← hx.1]; exact hi')]; exact hx.2 i hi'
+      · intro d hd' hdc hdo xs hx
+        exact (hother1 d hd' hdc hdo xs hx).of_same (by rw [hm]) (hh d).1 (hh d).2.1
+    · have hs_h := hs.step ho hb1
+      have hs1 := hs_h.step hc hb2
+      refine ⟨he, hs1, (hs1.ok.vec c hc).holds_exists, (hs1.ok.vec o ho).holds_exists, ?_, hlv1⟩
+      intro d hd' hdc hdo xs hx
+      exact hs_h.ok.holds_other hc hb2 hd' hdc (hs.ok.holds_other ho hb1 hd' hdo hx)
+
+theorem maybeSwapAlloc_comm (cfg : Cfg) (c o : Nat) (hco : c ≠ o) (w : World α) :
+    maybeSwapAlloc cfg c o w = maybeSwapAlloc cfg o c w := by
+  have hoc : o ≠ c := fun h => hco h.symm
+  rw [maybeSwapAlloc_run cfg c o hco, maybeSwapAlloc_run cfg o c hoc]
+  congr 1
+  apply world_hdr_ext
+  intro x
+  unfold maybeSwap
+  by_cases hp : cfg.policy.pocs = true
+  · by_cases hxc : x = c
+    · subst hxc; simp [upd_other _ _ _ _ hco, hp]
+    · by_cases hxo : x = o
+      · subst hxo; simp [upd_other _ _ _ _ hoc, hp]
+      · simp [upd_other _ _ _ _ hxc, upd_other _ _ _ _ hxo]
+  · by_cases hxc : x = c
+    · subst hxc; simp [upd_other _ _ _ _ hco, hp]
+    · by_cases hxo : x = o
+      · subst hxo; simp [upd_other _ _ _ _ hoc, hp]
+      · simp [upd_other _ _ _ _ hxc, upd_other _ _ _ _ hxo]
+
+/-- the outcome of a swap of `c` and `o` in a system, both ways -/
+def SwapPost (cfg : Cfg) (w : World α) (U A : List Nat) (c o : Nat) (w' : World α) : Prop :=
+  SysAll cfg w' U A ∧ (∀ xs, Holds w o xs → Holds w' c xs) ∧ (∀ xs, Holds w c xs → Holds w' o xs) ∧
+    (∀ d ∈ A, d ≠ c → d ≠ o → ∀ xs, Holds w d xs → Holds w' d xs) ∧ w'.live = w.live
+
+def SwapFail (cfg : Cfg) (w : World α) (U A : List Nat) (c o : Nat) (e : Exc) (w' : World α) : Prop :=
+  e = .elem ∧ SysAll cfg w' U A ∧ (∃ ys, Holds w' c ys) ∧ (∃ ys, Holds w' o ys) ∧
+    (∀ d ∈ A, d ≠ c → d ≠ o → ∀ xs, Holds w d xs → Holds w' d xs) ∧ w'.live = w.live
+
+theorem SwapPost.symm {cfg : Cfg} {w w' : World α} {U A : List Nat} {c o : Nat} (h : SwapPost cfg w U A o c w') : SwapPost cfg w U A c o w' :=
+  ⟨h.1, h.2.2.1, h.2.1, fun d hd h1 h2 => h.2.2.2.1 d hd h2 h1, h.2.2.2.2⟩
+
+theorem SwapFail.symm {cfg : Cfg} {w w' : World α} {U A : List Nat} {c o : Nat} {e : Exc} (h : SwapFail cfg w U A o c e w') : SwapFail cfg w U A c o e w' :=
+  ⟨h.1, h.2.1, h.2.2.2.1, h.2.2.1, fun d hd h1 h2 => h.2.2.2.2.1 d hd h2 h1, h.2.2.2.2.2⟩
+
+/-- `swap_default (c, o)` (equal or propagating allocators), `capacity c ≤ capacity o` -/
+theorem SysAll.swapDefault {cfg : Cfg} {w : World α} {U A : List Nat} {c o : Nat} (hs : SysAll cfg w U A)
+    (hc : c ∈ A) (ho : o ∈ A) (hco : c ≠ o) (hN : (w.hdr c).N = (w.hdr o).N) (hcap : (w.hdr c).cap ≤ (w.hdr o).cap)
+    (hal : SwapAllocOK cfg w c o) :
+    (swapDefault cfg c o w).sat (fun _ w' => SwapPost cfg w U A c o w') (fun e w' => SwapFail cfg w U A c o e w') := by
+  have hoc : o ≠ c := fun h => hco h.symm
+  have hvc := hs.ok.vec c hc
+  have hvo := hs.ok.vec o ho
+  have hl := hs.ok.led
+  unfold SvModel.swapDefault
+  rw [bind_run, getV_run]; simp only []
+  rw [bind_run, getV_run]; simp only []
+  have e0 : guard_swapDefault_0 (genv2 cfg (w.hdr c) (w.hdr o)) = decide ((w.hdr c).N < (w.hdr c).cap) := by
+    unfold guard_swapDefault_0 hasAllocation genv2 genv; simp only [Bool.false_eq_true, if_false]
+  have e1 : guard_swapDefault_1 (genv2 cfg (w.hdr c) (w.hdr o)) = decide ((w.hdr o).N < (w.hdr o).cap) := by
+    unfold guard_swapDefault_1 hasAllocation genv2 genv; simp only [Bool.false_eq_true, if_false]
+  have e2 : guard_swapDefault_2 (genv2 cfg (w.hdr c) (w.hdr o)) = decide ((w.hdr c).size < (w.hdr o).size) := rfl
+  rw [e0, e1, e2]
+  by_cases hch : (w.hdr c).N < (w.hdr c).cap
+  · -- both on the heap: O(1)
+    rw [if_pos (decide_eq_true hch)]
+    have hcheap := (hvc.heap_iff).mp hch
+    have hoheap := (hvo.heap_iff).mp (by omega)
+    rw [swapAllocation_run cfg c o hco, hal.fst, hal.snd]
+    obtain ⟨a, b, c', d, _, f⟩ := hs.exchange hc ho hco hN (fun h => absurd h hoheap) (fun h => absurd h hcheap) (w.hdr o).alloc (w.hdr c).alloc
+      (fun _ => rfl) (fun _ => rfl)
+    exact ⟨a, b, c', d, f⟩
+  · rw [if_neg (by simpa using hch)]
+    have hcin : (w.hdr c).data = (w.hdr c).inl := (hvc.inl_iff).mp (by have := hvc.cap_ge; omega)
+    by_cases hoh : (w.hdr o).N < (w.hdr o).cap
+    · rw [if_pos (decide_eq_true hoh)]
+      have hoheap := (hvo.heap_iff).mp hoh
+      refine Res.sat_mono (hs.swapHandover hc ho hco hN hcin hoheap hal) ?_ ?_
+      · intro _ w' ⟨a, b, c', d, e, _⟩; exact ⟨a, b, c', d, e⟩
+      · intro e w' ⟨a, b, c', d, f, g⟩
+        obtain ⟨ys, hy⟩ := hvo.holds_exists
+        exact ⟨a, b, c', ⟨ys, d ys hy⟩, fun x hx h1 _ => f x hx h1, g⟩
+    · rw [if_neg (by simpa using hoh)]
+      have hoin : (w.hdr o).data = (w.hdr o).inl := (hvo.inl_iff).mp (by have := hvo.cap_ge; omega)
+      by_cases hlt : (w.hdr c).size < (w.hdr o).size
+      · rw [if_pos (decide_eq_true hlt)]
+        refine Res.sat_mono (SysAll.swapElements hs hc ho hco hN hcin hoin (Nat.le_of_lt hlt)) ?_ ?_
+        · intro _ w' ⟨a, b, c', d, e, _⟩; exact ⟨a, b, c', d, e⟩
+        · intro e w' h; exact h
+      · rw [if_neg (by simpa using hlt)]
+        have hge : (w.hdr o).size ≤ (w.hdr c).size := by omega
+        have hcomm : (SvModel.swapElements cfg o c >>= fun _ => maybeSwapAlloc cfg c o) w = (SvModel.swapElements cfg o c >>= fun _ => maybeSwapAlloc cfg o c) w := by
+          rw [bind_run, bind_run]
+          cases SvModel.swapElements cfg o c w with
+          | ok u w1 => exact maybeSwapAlloc_comm cfg c o hco w1
+          | thrown e w1 => rfl
+        rw [hcomm]
+        refine Res.sat_mono (SysAll.swapElements hs ho hc hoc hN.symm hoin hcin hge) ?_ ?_
+        · intro _ w' ⟨a, b, c', d, e, _⟩; exact SwapPost.symm ⟨a, b, c', d, e⟩
+        · intro e w' h; exact SwapFail.symm h
+
+/-- SWAP (member `swap`) of two constructed containers of the same type whose allocators propagate on swap or are equal
+    (the case the standard defines): every path except `swap_unequal_no_propagate` -/
+theorem SysAll.swap {cfg : Cfg} {w : World α} {U A : List Nat} {c o : Nat} (hs : SysAll cfg w U A)
+    (hc : c ∈ A) (ho : o ∈ A) (hco : c ≠ o) (hN : (w.hdr c).N = (w.hdr o).N)
+    (hnull : (w.hdr c).N = 0 → (w.hdr c).inl = (w.hdr o).inl)
+    (hal : SwapAllocOK cfg w c o) :
+    (SvModel.swap cfg c o w).sat (fun _ w' => SwapPost cfg w U A c o w') (fun e w' => SwapFail cfg w U A c o e w') := by
+  have hoc : o ≠ c := fun h => hco h.symm
+  have hal' : SwapAllocOK cfg w o c := by
+    rcases hal with h | h
+    · exact Or.inl h
+    · exact Or.inr h.symm
+  have e10 : guard_swap1_0 (genv2 cfg (w.hdr c) (w.hdr o)) = decide ((w.hdr c).cap < (w.hdr o).cap) := rfl
+  have e20 : guard_swap2_0 (genv2 cfg (w.hdr c) (w.hdr o)) = decide ((w.hdr c).cap < (w.hdr o).cap) := rfl
+  have e21 : guard_swap2_1 (genv2 cfg (w.hdr c) (w.hdr o)) = ((w.hdr o).alloc == (w.hdr c).alloc) := rfl
+  have e22 : guard_swap2_2 (genv2 cfg (w.hdr c) (w.hdr o)) = ((w.hdr o).alloc == (w.hdr c).alloc) := rfl
+  -- the two orders of swap_default
+  have fwd : (w.hdr c).cap ≤ (w.hdr o).cap → (SvModel.swapDefault cfg c o w).sat (fun _ w' => SwapPost cfg w U A c o w') (fun e w' => SwapFail cfg w U A c o e w') :=
+    fun h => SysAll.swapDefault hs hc ho hco hN h hal
+  have bwd : (w.hdr o).cap ≤ (w.hdr c).cap → (SvModel.swapDefault cfg o c w).sat (fun _ w' => SwapPost cfg w U A c o w') (fun e w' => SwapFail cfg w U A c o e w') :=
+    fun h => Res.sat_mono (SysAll.swapDefault hs ho hc hoc hN.symm h hal') (fun _ _ h => SwapPost.symm h) (fun _ _ h => SwapFail.symm h)
+  unfold SvModel.swap
+  rw [bind_run, getV_run]; simp only []
+  rw [bind_run, getV_run]; simp only []
+  rw [e10, e20, e21, e22]
+  by_cases hsw : allocationsAreSwappable cfg.policy = true
+  · rw [if_pos hsw]
+    by_cases hz : (w.hdr c).N = 0
+    · rw [if_pos hz]
+      rw [swapAllocation_run cfg c o hco, hal.fst, hal.snd]
+      obtain ⟨a, b, c', d, _, f⟩ := hs.exchange hc ho hco hN (fun _ => (hnull hz).symm) (fun _ => hnull hz) (w.hdr o).alloc (w.hdr c).alloc
+        (fun _ => rfl) (fun _ => rfl)
+      exact ⟨a, b, c', d, f⟩
+    · rw [if_neg hz]
+      by_cases hlt : (w.hdr c).cap < (w.hdr o).cap
+      · rw [if_pos (decide_eq_true hlt)]; exact fwd (Nat.le_of_lt hlt)
+      · rw [if_neg (by simpa using hlt)]; exact bwd (by omega)
+  · rw [if_neg hsw]
+    -- not swappable: pocs is false, so the allocators are equal
+    have hp : cfg.policy.pocs = false := by
+      unfold allocationsAreSwappable at hsw
+      cases h : cfg.policy.pocs
+      · rfl
+      · rw [h] at hsw; simp at hsw
+    have heq : (w.hdr c).alloc = (w.hdr o).alloc := by
+      rcases hal with h | h
+      · rw [hp] at h; cases h
+      · exact h
+    have hb : ((w.hdr o).alloc == (w.hdr c).alloc) = true := by rw [heq]; exact beq_self_eq_true _
+    rw [hb]
+    simp only [if_true]
+    by_cases hlt : (w.hdr c).cap < (w.hdr o).cap
+    · rw [if_pos (decide_eq_true hlt)]; exact fwd (Nat.le_of_lt hlt)
+    · rw [if_neg (by simpa using hlt)]; exact bwd (by omega)
+
 end SvModel
